@@ -31,7 +31,7 @@ theorem wf_dropQ (h : WfS a none) (hk : k ∉ a.idx) (hc : ∀ fd, (k, some fd) 
   have mO : ∀ {p : Nat × Owner}, p ∈ (a.dropQ k).qKO ↔ p ∈ a.qKO ∧ p.1 ≠ k := mem_proj_dropQ' a k _
   have ne_of_idx : ∀ x, x ∈ a.idx → x ≠ k := fun x hx he => hk (he ▸ hx)
   refine ⟨⟨dropQ_qK_sub.nodup h.q.nodup, fun x hx => h.q.lt x (dropQ_qK_sub.subset hx)⟩, ?_, ?_, ?_, h.s, h.k, ?_⟩
-  · refine ⟨fun p hp => ?_, h.i.allNodup, h.i.allIdx, h.i.lcOk⟩
+  · refine ⟨fun p hp => ?_, h.i.allNodup, h.i.allIdx, h.i.lcOk, h.i.disj, h.i.nl⟩
     exact mQ.mpr ⟨h.i.qidLive p hp, ne_of_idx _ (List.mem_map.mpr ⟨p, hp, rfl⟩)⟩
   · refine ⟨h.t.btNodup, fun x hx => ?_, h.t.poNodup, fun x hx => ?_⟩
     · obtain ⟨hi, fd, hm⟩ := h.t.btOk x hx
@@ -57,7 +57,7 @@ theorem subs_dropQ (hk : k ∉ a.idx) (id : Nat) : (a.dropQ k).subs id = a.subs 
 theorem debt_dropQ {x d} (h : DebtOk x d a) (hk : k ∉ a.idx) : DebtOk x d (a.dropQ k) :=
   ⟨h.fresh, fun c hc hp hx => by rw [subs_dropQ hk]; exact h.cnt c hc hp hx⟩
 
-theorem step_dropQ {xf xi d} : StepS xf xi d a (a.dropQ k) where
+theorem step_dropQ {xf xi d} (hk : k ∉ a.idx) : StepS xf xi d a (a.dropQ k) where
   faults := rfl
   kMono := Nat.le_refl _
   keyMono := Nat.le_refl _
@@ -65,6 +65,13 @@ theorem step_dropQ {xf xi d} : StepS xf xi d a (a.dropQ k) where
   unl := fun _ q h _ => ⟨q, h, fun _ hx => hx⟩
   orphan := fun _ _ _ hn => hn.shrink (fun _ hp => ((mem_proj_dropQ' a k _).mp hp).1) (fun _ hx => hx)
   debtAlive := fun _ ha _ => ha
+  prog := {
+    doneMono := fun _ h => h
+    lcRel := forall2_sub_refl _
+    allNew := fun _ h => Or.inl h
+    keysLt := fun hl p hp => hl p ((mem_proj_dropQ' a k _).mp hp).1
+    ownKeep := fun _ p hp hpi => (mem_proj_dropQ' a k _).mpr ⟨hp, fun he => hk (he ▸ hpi)⟩
+    done6 := fun _ _ _ hpi hn => absurd hpi hn }
 
 theorem ownerFree_dropQ {o : Owner} (h : a.OwnerFree o) : (a.dropQ k).OwnerFree o := by
   cases o with
@@ -111,11 +118,18 @@ theorem wf_freeQuery (h : WfS a none) : WfS (a.freeQuery k) none := by
   | some e =>
     exact wf_dropQ (wf_detach h (Or.inl rfl) hq) (not_idx_detach h hq) (no_conn_detach hq h)
 
-theorem step_freeQuery {xf xi d} (h : WfS a none) : StepS xf xi d a (a.freeQuery k) := by
+/-- the token in flight after releasing `k` -/
+def freeTok (a : Sk) (k : Nat) : Option Nat :=
+  match a.q? k with
+  | some e => ownerTok e.owner
+  | none => none
+
+theorem step_freeQuery {xf xi d} (h : WfS a none) : StepT xf xi (freeTok a k) d a (a.freeQuery k) := by
   rw [Sk.freeQuery_eq]
+  unfold freeTok
   cases hq : a.q? k with
-  | none => rw [detach_none hq]; exact step_dropQ
-  | some e => exact (step_detach h hq).trans step_dropQ
+  | none => rw [detach_none hq]; exact step_dropQ (not_idx_of_dead h hq)
+  | some e => exact (step_detach h hq).trans (step_dropQ (not_idx_detach h hq)).toT
 
 /-- releasing a query that is not linked (the query whose callback has just run, in `end_query`) does not
     change any count -/
